@@ -33,8 +33,11 @@ pub async fn race_cmd(rep: &mut Report, out_prefix: &str) {
         for run in 1..=runs_per as u64 {
             rep.eval(1);
             let seed = hcommon::seed().wrapping_mul(0x5851_f42d) ^ (nb as u64) << 32 ^ (wt as u64) << 24 ^ run;
-            let cfg = DbCfg { writer_threads: wt, sync_interval_ms: if run % 2 == 0 { 1 } else { 5 }, min_sync_bytes: if run % 2 == 0 { 1 } else { 1 << 30 },
-                              max_batch: if run % 2 == 0 { 1 } else { 1000 }, ..DbCfg::small(nb) };
+            // one run in four syncs on every append; the others leave appends unsynced until the
+            // syncer's timer fires (5 / 20 / 50 ms), so that later appends meet pending state
+            let timer = run % 4 != 0;
+            let cfg = DbCfg { writer_threads: wt, sync_interval_ms: if !timer { 1 } else { [5, 20, 50][(run % 3) as usize] }, min_sync_bytes: if !timer { 1 } else { 1 << 30 },
+                              max_batch: if !timer { 1 } else { 1000 }, ..DbCfg::small(nb) };
             let dir = root.join(format!("nb{nb}wt{wt}r{run}"));
             let w = match World::new(dir.clone(), cfg, PayloadRule::Tiny, seed) {
                 Ok(w) => Arc::new(tokio::sync::Mutex::new(w)),
@@ -46,16 +49,23 @@ pub async fn race_cmd(rep: &mut Report, out_prefix: &str) {
             let mut hs = vec![];
             for c in 0..clients {
                 let w = w.clone();
+                let jitter_ms = w.lock().await.cfg.sync_interval_ms;
                 hs.push(tokio::spawn(async move {
                     let mut rng = rand::rngs::StdRng::seed_from_u64(seed ^ (c as u64 + 1) * 7919);
                     let mut calls: Vec<Value> = vec![];
                     let db = w.lock().await.db().clone();
                     for i in 0..per_client {
+                        // half of the appends go to the client's own stream (its expectations are then
+                        // right, so appends of different clients to one partition are accepted while
+                        // earlier ones are still unsynced); the rest race on three shared streams.  A
+                        // stream normally lives in one partition under one key; now and then a client
+                        // uses another partition (same bucket or not) or another key
+                        let own = rng.random_range(0..2) == 0;
+                        let private = format!("c{c}");
                         let si = rng.random_range(0..STREAMS.len());
-                        let s = STREAMS[si];
-                        // a stream normally lives in one partition under one key; now and then a
-                        // client uses another partition (same bucket or not) or another key
-                        let p: u16 = if rng.random_range(0..8) == 0 { rng.random_range(0..NPART) } else { si as u16 % NPART };
+                        let s: &str = if own { &private } else { STREAMS[si] };
+                        let home: u16 = if own { (c % 2) as u16 } else { si as u16 % NPART };
+                        let p: u16 = if rng.random_range(0..8) == 0 { rng.random_range(0..NPART) } else { home };
                         let key = if rng.random_range(0..12) == 0 { "kx".to_string() } else { format!("k{s}") };
                         let b = p % nb;
                         let cur = latest(&db, &*w.lock().await, b, s).await.unwrap_or(-1);
@@ -71,7 +81,7 @@ pub async fn race_cmd(rep: &mut Report, out_prefix: &str) {
                             };
                             evs.push(json!({"s": s, "x": x, "badts": false}));
                         }
-                        let xs = if rng.random_range(0..5) == 0 {
+                        let xs = if rng.random_range(0..4) == 0 {
                             let cs = latest_seq(&db, p).await.unwrap_or(-1);
                             exp(cs)
                         } else {
@@ -80,8 +90,10 @@ pub async fn race_cmd(rep: &mut Report, out_prefix: &str) {
                         let id = 1 + (c * 1000 + i) as u64;
                         let txv = json!({"id": id, "key": key, "p": p, "xs": xs, "evs": evs, "oversize": false});
                         let prep = w.lock().await.prepare(&txv);
-                        if rng.random_range(0..3) == 0 {
-                            tokio::task::yield_now().await;
+                        // clients that all wait for the same sync would otherwise append in lock
+                        // step right after it: spread them over the sync period
+                        if rng.random_range(0..3) != 0 {
+                            tokio::time::sleep(std::time::Duration::from_micros(rng.random_range(0..2_500 * jitter_ms))).await;
                         }
                         let r = db.append_events(prep.tx).await;
                         calls.push(match r {
@@ -115,8 +127,9 @@ pub async fn race_cmd(rep: &mut Report, out_prefix: &str) {
             let mut w = Arc::try_unwrap(w).ok().expect("clients done").into_inner();
             // final observations
             let mut lv = vec![];
+            let all_streams: Vec<String> = STREAMS.iter().map(|s| s.to_string()).chain((0..clients).map(|c| format!("c{c}"))).collect();
             for b in 0..nb {
-                for s in STREAMS {
+                for s in &all_streams {
                     let v = latest(w.db(), &w, b, s).await.unwrap_or(-99);
                     lv.push(json!({"b": b, "s": s, "v": v}));
                 }
